@@ -10,9 +10,12 @@ ASSUMPTIONS = ["configurations are chosen so that trees stay affordable (heights
 CONFIGS_QUICK = [
     # per-level limits deliberately neither ascending nor descending in step: a build that mixes up which limit belongs to which level shows
     {"HBS_LMS_MAX_ALLOWED_HSS_LEVELS": "3", "HBS_LMS_TREE_HEIGHTS": "10, 5, 15", "HBS_LMS_WINTERNITZ_PARAMETERS": "2, 8, 4"},
+    # the smallest build: one level, the top tree has the maximum height of the build (single-level fast paths, aux level = MAX_TREE_HEIGHT)
+    {"HBS_LMS_MAX_ALLOWED_HSS_LEVELS": "1", "HBS_LMS_TREE_HEIGHTS": "5", "HBS_LMS_WINTERNITZ_PARAMETERS": "4"},
+    # the last level permits a longer LMS signature than level 0 (capacities derived from the wrong level show here)
+    {"HBS_LMS_MAX_ALLOWED_HSS_LEVELS": "2", "HBS_LMS_TREE_HEIGHTS": "5, 10", "HBS_LMS_WINTERNITZ_PARAMETERS": "8, 4"},
 ]
 CONFIGS_THOROUGH = CONFIGS_QUICK + [
-    {"HBS_LMS_MAX_ALLOWED_HSS_LEVELS": "1", "HBS_LMS_TREE_HEIGHTS": "5", "HBS_LMS_WINTERNITZ_PARAMETERS": "4"},
     {"HBS_LMS_MAX_ALLOWED_HSS_LEVELS": "2", "HBS_LMS_TREE_HEIGHTS": "5, 10", "HBS_LMS_WINTERNITZ_PARAMETERS": "2, 4"},
     {"HBS_LMS_MAX_ALLOWED_HSS_LEVELS": "8", "HBS_LMS_TREE_HEIGHTS": "5, 5, 5, 5, 5, 5, 5, 5", "HBS_LMS_WINTERNITZ_PARAMETERS": "8, 8, 8, 8, 8, 8, 8, 8"},
     {"HBS_LMS_MAX_ALLOWED_HSS_LEVELS": "4", "HBS_LMS_TREE_HEIGHTS": "5, 5, 25, 5", "HBS_LMS_WINTERNITZ_PARAMETERS": "1, 2, 4, 4"},
